@@ -24,6 +24,7 @@ L1_CLAUSES = ["TypeOK", "C12_WellFormed", "C12_HardEdgeIsRadialStep", "C12_Highp
               "C12_PixelsIsNearestInteger"]
 CHEAP = ["TypeOK", "C12_WellFormed"]
 TOL = 1            # 1e-6 on the x1e6 scale
+F32_TOL = 5        # 5e-6 relative: float32 input maps (unchanged tree: 1.5e-7)
 SOFT_TOL = 1000    # 1e-3: proven bound on the corner leak of the 4-sigma truncated kernel is 3.5e-4 for sigma <= 4
 M = 1000000
 CLAMP = 2000000
@@ -129,18 +130,37 @@ def measure_filt(case):
     Fa, Fb = np.fft.fftn(a), np.fft.fftn(b)
     shift = [rng.randrange(m) for m in n]
     t = {"kind": "filt", "n": n, "rl": case["rl"], "fl": case["fl"], "rh": case["rh"], "fh": case["fh"], "real": True}
-    imax = spread = pw = leak = lin = shf = 0.0
+    imax = spread = pw = leak = lin = shf = rep = keep = 0.0
+    argmut = False
+    a0, b0 = a.copy(), b.copy()
     fl = filters_for(case)
     small = n[0] * n[1] * n[2] <= case.get("pw_limit", 1200)
     for name in ("lp", "hp", "lp2", "bp"):
         f = fl[name]
-        oa, ob = f(a), f(b)
+        oa = f(a)
+        snap_a = oa.copy() if isinstance(oa, np.ndarray) else None       # taken before any later call
+        ob = f(b)
+        snap_b = ob.copy() if isinstance(ob, np.ndarray) else None
         if not (isinstance(oa, np.ndarray) and np.isrealobj(oa) and list(oa.shape) == list(n)):
             t["real"] = False
             oa = np.real(np.asarray(oa)) if isinstance(oa, np.ndarray) and list(np.shape(oa)) == list(n) else np.zeros(n)
             ob = np.real(np.asarray(ob)) if isinstance(ob, np.ndarray) and list(np.shape(ob)) == list(n) else np.zeros(n)
         Ha, Hb = np.fft.fftn(oa) / Fa, np.fft.fftn(ob) / Fb
         t[name] = table_of(Ha)
+        # independence of calls: an earlier result survives later calls; after the caller overwrites a returned array
+        # the same call gives the same map again; the argument is not modified
+        if snap_a is None or snap_b is None or np.shape(snap_a) != tuple(n) or np.shape(snap_b) != tuple(n):
+            snap_a, snap_b = oa.copy(), ob.copy()
+        snap_a, snap_b = np.real(snap_a), np.real(snap_b)
+        again = f(a)
+        keep = max(keep, float(np.max(np.abs(ob - snap_b))), float(np.max(np.abs(oa - snap_a))))
+        for arr in (oa, again):
+            if isinstance(arr, np.ndarray) and arr.flags.writeable:
+                arr[...] = 7.0
+        third = np.real(np.asarray(f(a)))
+        rep = max(rep, float(np.max(np.abs(third - snap_a))) if third.shape == snap_a.shape else 2.0)
+        argmut = argmut or not (np.array_equal(a, a0) and np.array_equal(b, b0))
+        oa, ob = snap_a, snap_b
         imax = max(imax, float(np.max(np.abs(Ha.imag))), float(np.max(np.abs(Hb.imag))))
         spread = max(spread, float(np.max(np.abs(Ha - Hb))))
         oc = np.real(np.asarray(f(a + 2.0 * b)))
@@ -156,8 +176,37 @@ def measure_filt(case):
                 pw = max(pw, abs(gk - Ha[idx]))
                 leak = max(leak, float(np.max(np.abs(ow - gk.real * w))))
     t.update({"imax": clampi(imax * M), "spread": clampi(spread * M), "pw": clampi(pw * M), "leak": clampi(leak * M),
-              "lin": clampi(lin * M), "shift": clampi(shf * M)})
+              "lin": clampi(lin * M), "shift": clampi(shf * M), "rep": clampi(rep * M), "keep": clampi(keep * M),
+              "argmut": bool(argmut)})
     return t
+
+
+DTYPES = ["int16", "int32", "float32", "float64"]
+
+
+def measure_dtype(case):
+    """The same integer-valued random map as int16 / int32 / float32 / float64 through the three filters of a
+    configuration: linearity, low-pass + high-pass = map, outputs equal to those of the float64 map (relative, x1e6)."""
+    n = case["n"]
+    base = np.random.default_rng(case["mseed"]).integers(-100, 101, size=n)
+    amp = float(np.max(np.abs(base)))
+    fl = filters_for(case)
+    ref = {k: np.asarray(fl[k](base.astype("float64")), dtype=float) for k in ("lp", "hp", "bp")}
+    runs = []
+    for dt in DTYPES:
+        a = base.astype(dt)
+        a3 = (3 * base).astype(dt)
+        outs = {k: fl[k](a) for k in ("lp", "hp", "bp")}
+        real = all(isinstance(o, np.ndarray) and np.isrealobj(o) and list(o.shape) == list(n) for o in outs.values())
+        if not real:
+            runs.append({"dt": dt, "real": False, "lin": CLAMP, "comp": CLAMP, "dev": CLAMP})
+            continue
+        o = {k: np.asarray(v, dtype=float) for k, v in outs.items()}
+        lin = max(float(np.max(np.abs(np.asarray(fl[k](a3), dtype=float) - 3.0 * o[k]))) for k in o) / (3.0 * amp)
+        comp = float(np.max(np.abs(o["lp"] + o["hp"] - base))) / amp
+        dev = max(float(np.max(np.abs(o[k] - ref[k]))) for k in o) / amp
+        runs.append({"dt": dt, "real": True, "lin": clampi(lin * M), "comp": clampi(comp * M), "dev": clampi(dev * M)})
+    return {"kind": "dtype", "n": n, "runs": runs}
 
 
 def measure_res(case):
@@ -177,6 +226,8 @@ CLAUSE_OP = {"C12_HighpassIsComplement": "highpass", "C12_BandpassIsDifference":
 
 
 def case_sig(case, clause):
+    if case["kind"] == "dtype":
+        return {"op": CLAUSE_OP.get(clause, "lowpass/highpass/bandpass"), "cutoff_as": "pixels", "input": "dtype-variation"}
     if case["kind"] == "res":
         return {"op": case["filt"], "cutoff_as": "resolution", "edge": "hard"}
     return {"op": CLAUSE_OP.get(clause, "lowpass/highpass/bandpass"), "cutoff_as": "pixels",
@@ -189,7 +240,7 @@ def run_traces(ctx, cases, name="trace", batch=40):
         live = []
         for case in chunk:
             ctx.ran(case)
-            t, err = core.call_guarded(measure_filt if case["kind"] == "filt" else measure_res, case)
+            t, err = core.call_guarded({"filt": measure_filt, "dtype": measure_dtype}.get(case["kind"], measure_res), case)
             if err is not None:
                 ctx.fail("call_raises", err, case, case_sig(case, "call_raises"))
                 continue
@@ -201,7 +252,8 @@ def run_traces(ctx, cases, name="trace", batch=40):
         with open(path, "w") as fh:
             for _, t in live:
                 fh.write(json.dumps(t, separators=(",", ":")) + "\n")
-        cfgt = "SPECIFICATION TraceSpec\nCONSTANTS\n Tol = %d\n SoftTol = %d\nCONSTRAINT Report\n" % (TOL, SOFT_TOL)
+        cfgt = "SPECIFICATION TraceSpec\nCONSTANTS\n Tol = %d\n SoftTol = %d\n F32Tol = %d\nCONSTRAINT Report\n" % (
+            TOL, SOFT_TOL, F32_TOL)
         res = ctx.tlc("FourierTrace", cfgt, name="%s_%d" % (name, start // batch), env={"TRACE_FILE": path},
                       workers=TLC_WORKERS)
         os.remove(path)
@@ -220,8 +272,10 @@ def run_traces(ctx, cases, name="trace", batch=40):
                 raise core.MachineryError("driver generated a configuration outside the specification's scope: %s" % (case,))
             detail = "FourierTrace rejects the measured gain tables (witness frequency %s" % (v.get("witness"),)
             if case["kind"] == "filt":
-                detail += "; imax=%d spread=%d pw=%d leak=%d lin=%d shift=%d x1e-6" % tuple(
-                    t[k] for k in ("imax", "spread", "pw", "leak", "lin", "shift"))
+                detail += "; imax=%d spread=%d pw=%d leak=%d lin=%d shift=%d rep=%d keep=%d x1e-6 argmut=%s" % tuple(
+                    t[k] for k in ("imax", "spread", "pw", "leak", "lin", "shift", "rep", "keep", "argmut"))
+            if case["kind"] == "dtype":
+                detail += "; runs=%s" % (t["runs"],)
             ctx.fail(v["clause"], detail + ")", case, case_sig(case, v["clause"]))
 
 
@@ -362,7 +416,7 @@ def replay(ctx, case):
             replay_hard(ctx, recs[0], case.get("mseed", 0))
         else:
             replay_pixels(ctx, recs[0])
-    elif case["kind"] in ("filt", "res"):
+    elif case["kind"] in ("filt", "res", "dtype"):
         run_traces(ctx, [case], name="replaytrace")
     else:
         raise core.MachineryError("unknown case kind %r" % (case.get("kind"),))
@@ -387,6 +441,9 @@ def run(ctx):
         "band-pass gain range [0,1] is claimed only for equal edge widths and rh <= rl (it is a difference of low-passes)",
         "sigma restricted to multiples of 1/4 so that the region bounds are integers; x.5 rounding ties of "
         "edge*px/res are not generated (decided by TLC, discarded)",
+        "input dtypes: the same integer-valued map as int16 / int32 / float32 / float64 (float32 residuals within 5e-6)",
+        "independence of calls (repeat after overwriting the returned array, earlier results unchanged, argument "
+        "untouched) is read into 'filtering is a linear map of its input'",
         "plane waves: every integer frequency in boxes of <= 900 voxels, else axes, body diagonals and a random sample"]
     only = getattr(ctx, "only", None)
 
@@ -442,6 +499,10 @@ def run(ctx):
             # the extreme soft edge: r = 4 sigma + 1 (One = {DC}) and r = N/2 with the widest edge
             cases.append({"kind": "filt", "n": [34, 20, 18], "rl": 17, "fl": 16, "rh": 9, "fh": 8, "mseed": rng.randrange(2 ** 31),
                           "pw_limit": 0})
+            for _ in range(8):      # the same integer-valued map as int16 / int32 / float32 / float64
+                c = rand_filt(rng, rand_box(rng, 8, 16, cap=2400))
+                c["kind"] = "dtype"
+                cases.append(c)
             for i in range(24):     # edge = first axis: boxes with three different sizes, every filter in turn
                 cases.append(rand_res(rng, noncubic_box(rng, 8, 20, 3000), filt=["lowpass", "highpass", "bandpass"][i % 3]))
         else:
@@ -456,6 +517,10 @@ def run(ctx):
                 c["pw_limit"] = 0
                 cases.append(c)
             cases.append({"kind": "filt", "n": [40, 40, 40], "rl": 17, "fl": 16, "rh": 13, "fh": 12, "mseed": 5, "pw_limit": 0})
+            for _ in range(120):
+                c = rand_filt(rng, rand_box(rng, 8, 32, cap=12000))
+                c["kind"] = "dtype"
+                cases.append(c)
             for i in range(150):
                 cases.append(rand_res(rng, noncubic_box(rng, 8, 32, 12000), filt=["lowpass", "highpass", "bandpass"][i % 3]))
             cases.append(rand_res(rng, [48, 48, 48]))
